@@ -123,12 +123,15 @@ inductive Outcome where
 
 /-! ## shared helpers -/
 
-/-- group part of an apiVersion (`schema.ParseGroupVersion`; on a parse error
-    `FromAPIVersionAndKind` keeps only the kind, i.e. group `""`). -/
+/-- group part of an apiVersion (`schema.ParseGroupVersion`: no `/` → group `""`, one `/` → the
+    text before it; on a parse error (two or more `/`) `FromAPIVersionAndKind` keeps only the kind,
+    i.e. group `""`).  Written over `toList` so that the kernel can evaluate it on literals. -/
 def groupOf (apiVersion : String) : String :=
-  match apiVersion.splitOn "/" with
-  | [g, _] => g
-  | _ => ""
+  let cs := apiVersion.toList
+  if (cs.filter (· == '/')).length = 1 then String.ofList (cs.takeWhile (· != '/')) else ""
+
+/-- `strings.ToLower` on ASCII (the generator only produces ASCII annotation values) -/
+def lower (s : String) : String := String.ofList (s.toList.map Char.toLower)
 
 /-- `util.IsSupportedWorkload` with the workload-type filter on: group and kind only. -/
 def isSupportedWorkload (r : Ref) : Bool :=
@@ -154,6 +157,12 @@ def isPctType : Option IntOrPct → Bool
 def scaled100 : Option IntOrPct → Int × Bool
   | none => (0, true)
   | some v => scaled v 100 true
+
+/-- `intstr.GetScaledValueFromIntOrPercent(&intstr.FromString(*s.Traffic), 100, true)`: the value is
+    always of string type, so an integer cannot occur (kept as the error case). -/
+def trafficVal : IntOrPct → Int × Bool
+  | .pct p => scaled (.pct p) 100 true
+  | _ => (0, true)
 
 /-- first error of a sequential loop with early `return` -/
 def firstErr {α ε} (f : α → Option ε) : List α → Option ε
@@ -213,6 +222,13 @@ def validateObjectRefB (style : Style) (ref : Ref) : List Err :=
     if isBlueGreenWorkload ref then [] else [.refKindBG]
   else []
 
+/-- the `switch c.style` on the traffic value inside the first loop of `validateRolloutSpecCanarySteps` -/
+def checkTrafficB (style : Style) (t : IntOrPct) : Option Err :=
+  let (w, e) := trafficVal t
+  match style with
+  | .blueGreen => if e ∨ w < 0 ∨ w > 100 then some .trafficBG else none
+  | _ => if e ∨ w ≤ 0 ∨ w > 100 then some .trafficCanary else none
+
 /-- body of the first loop of `validateRolloutSpecCanarySteps` for one step -/
 def checkStepB (style : Style) (limit : Int) (s : Step) : Option Err :=
   match s.replicas with
@@ -224,11 +240,7 @@ def checkStepB (style : Style) (limit : Int) (s : Step) : Option Err :=
     else if style = .partition ∧ isPctType (some r) ∧ v > limit then some .partLimit
     else match s.traffic with
       | none => none
-      | some t =>
-        let (w, e) := scaled t 100 true
-        match style with
-        | .blueGreen => if e ∨ w < 0 ∨ w > 100 then some .trafficBG else none
-        | _ => if e ∨ w ≤ 0 ∨ w > 100 then some .trafficCanary else none
+      | some t => checkTrafficB style t
 
 /-- `lastOfType map[bool]int`: latest value seen among the integer (`false`) / percentage (`true`) steps -/
 abbrev Last := Bool → Option Int
@@ -283,16 +295,19 @@ def validateConflict (store : List Stored) (ns name : String) (ref : Option Ref)
   | none => []
 
 /-- `validateRollout` : spec errors then conflict errors -/
-def validateB (store : List Stored) (limit : Int) (r : RolloutB) : Option (List Err) := do
-  let style ← contextB r
-  return validateObjectRefB style r.ref ++ validateStrategyB style limit r ++
-    validateConflict store r.ns r.name (some r.ref)
+def validateB (store : List Stored) (limit : Int) (r : RolloutB) : Option (List Err) :=
+  match contextB r with
+  | none => none
+  | some style =>
+    some (validateObjectRefB style r.ref ++ validateStrategyB style limit r ++
+      validateConflict store r.ns r.name (some r.ref))
 
 /-- `GetSteps` / `GetTrafficRouting` (switch on `GetRollingStyle`) -/
-def stratOf (canary blueGreen : Option Strat) : Option Strat := do
-  match ← rollingStyle canary blueGreen with
-  | .blueGreen => blueGreen   -- BlueGreen != nil here
-  | _ => canary
+def stratOf (canary blueGreen : Option Strat) : Option Strat :=
+  match rollingStyle canary blueGreen with
+  | none => none   -- PANIC inside GetRollingStyle
+  | some .blueGreen => blueGreen   -- BlueGreen != nil here
+  | some _ => canary
 
 def immutablePhase (phase : String) : Bool := phase = "Progressing" ∨ phase = "Terminating"
 
@@ -300,21 +315,26 @@ def immutablePhase (phase : String) : Bool := phase = "Progressing" ∨ phase = 
 def validateUpdateB (store : List Stored) (limit : Int) (old new : RolloutB) : Option (List Err) :=
   match store.find? (fun r => r.ns = new.ns ∧ r.name = new.name) with
   | none => some [.internal]
-  | some latest => do
-    let errs ← validateB store limit new
-    if errs ≠ [] then return errs
-    if immutablePhase latest.phase then
-      if old.ref ≠ new.ref then return [.immutRef]
-      if old.blueGreen.isNone ∧ old.canary.isNone then return [.immutStyle]   -- IsEmptyRelease
-      let os ← stratOf old.canary old.blueGreen
-      let nw ← stratOf new.canary new.blueGreen
-      if os.trs ≠ nw.trs then return [.immutTR]
-      let ost ← rollingStyle old.canary old.blueGreen
-      let nst ← rollingStyle new.canary new.blueGreen
-      if ost ≠ nst then return [.immutStyle]
-      if os.steps.length ≠ nw.steps.length then return [.immutSteps]
-      return []
-    else return []
+  | some latest =>
+    match validateB store limit new with
+    | none => none
+    | some errs =>
+      if errs ≠ [] then some errs
+      else if ¬ immutablePhase latest.phase then some []
+      else if old.ref ≠ new.ref then some [.immutRef]
+      else if old.blueGreen.isNone ∧ old.canary.isNone then some [.immutStyle]   -- IsEmptyRelease
+      else
+        match stratOf old.canary old.blueGreen, stratOf new.canary new.blueGreen with
+        | some os, some nw =>
+          if os.trs ≠ nw.trs then some [.immutTR]
+          else
+            match rollingStyle old.canary old.blueGreen, rollingStyle new.canary new.blueGreen with
+            | some ost, some nst =>
+              if ost ≠ nst then some [.immutStyle]
+              else if os.steps.length ≠ nw.steps.length then some [.immutSteps]
+              else some []
+            | _, _ => none
+        | _, _ => none
 
 /-! ## v1alpha1 -/
 
@@ -323,7 +343,7 @@ def contextA (r : RolloutA) : Option (Option Style) :=
   match r.canary with
   | none => some none
   | some _ =>
-    let a := r.anno.toLower
+    let a := lower r.anno
     if a = "" ∨ a = "canary" then
       match r.ref with
       | none => some (some .partition)   -- `targetRef != nil &&` guard
@@ -338,7 +358,7 @@ def validateObjectRefA (ref : Option Ref) : List Err :=
 
 /-- `validateV1alpha1RolloutRollingStyle` -/
 def validateRollingStyleA (anno : String) : List Err :=
-  let a := anno.toLower
+  let a := lower anno
   if a = "" ∨ a = "canary" ∨ a = "partition" then [] else [.styleAnno]
 
 /-- body of the first loop of `validateV1alpha1RolloutSpecCanarySteps`;
@@ -382,25 +402,30 @@ def cmpValA (s : Step) : Option Int :=
   | some r => some (scaled r 100 true).1
   | none => s.weight   -- PANIC when nil
 
+/-- `isTraffic && curr.Weight != nil && prev.Weight != nil && *curr.Weight < *prev.Weight`
+    (no previous step at `i = 0`) -/
+def weightDecrA (isTraffic : Bool) (prev : Option Step) (c : Step) : Bool :=
+  match prev with
+  | some p => (match c.weight, p.weight with
+    | some cw, some pw => isTraffic && decide (cw < pw)
+    | _, _ => false)
+  | none => false
+
 /-- second loop of `validateV1alpha1RolloutSpecCanarySteps`: weights of neighbouring steps, then
     every step against the latest previous step of the same type -/
 def checkNonDecrA (isTraffic : Bool) (prev : Option Step) (last : Last) : List Step → Option (Option Err)
   | [] => some none
   | c :: rest =>
-    let weightDecr : Bool := match prev with
-      | some p => (match c.weight, p.weight with
-        | some cw, some pw => isTraffic && decide (cw < pw)
-        | _, _ => false)
-      | none => false
-    if weightDecr then some (some .weightDecr)
+    if weightDecrA isTraffic prev c then some (some .weightDecr)
     else
       match cmpValA c with
       | none => none   -- PANIC *curr.Weight
       | some v =>
-        let t := isPctType c.replicas
-        match last t with
-        | some pv => if v < pv then some (some .nonDecr) else checkNonDecrA isTraffic (some c) (last.set t v) rest
-        | none => checkNonDecrA isTraffic (some c) (last.set t v) rest
+        match last (isPctType c.replicas) with
+        | some pv =>
+          if v < pv then some (some .nonDecr)
+          else checkNonDecrA isTraffic (some c) (last.set (isPctType c.replicas) v) rest
+        | none => checkNonDecrA isTraffic (some c) (last.set (isPctType c.replicas) v) rest
 
 /-- `validateV1alpha1RolloutSpecCanarySteps` -/
 def validateStepsA (c : Option Style) (limit : Int) (steps : List Step) (isTraffic : Bool) :
@@ -418,35 +443,44 @@ def validateStepsA (c : Option Style) (limit : Int) (steps : List Step) (isTraff
 def validateStrategyA (c : Option Style) (limit : Int) (canary : Option Strat) : Option (List Err) :=
   match canary with
   | none => some [.canaryNil]
-  | some cn => do
-    let se ← validateStepsA c limit cn.steps ((cn.trs.getD []).length > 0)
-    return se ++ validateTrafficList cn.trs
+  | some cn =>
+    match validateStepsA c limit cn.steps ((cn.trs.getD []).length > 0) with
+    | none => none
+    | some se => some (se ++ validateTrafficList cn.trs)
 
 /-- `validateV1alpha1Rollout` -/
-def validateA (store : List Stored) (limit : Int) (r : RolloutA) : Option (List Err) := do
-  let c ← contextA r
-  let se ← validateStrategyA c limit r.canary
-  return validateObjectRefA r.ref ++ validateRollingStyleA r.anno ++ se ++
-    validateConflict store r.ns r.name r.ref
+def validateA (store : List Stored) (limit : Int) (r : RolloutA) : Option (List Err) :=
+  match contextA r with
+  | none => none
+  | some c =>
+    match validateStrategyA c limit r.canary with
+    | none => none
+    | some se =>
+      some (validateObjectRefA r.ref ++ validateRollingStyleA r.anno ++ se ++
+        validateConflict store r.ns r.name r.ref)
 
 /-- `validateV1alpha1RolloutUpdate` -/
 def validateUpdateA (store : List Stored) (limit : Int) (old new : RolloutA) : Option (List Err) :=
   match store.find? (fun r => r.ns = new.ns ∧ r.name = new.name) with
   | none => some [.internal]
-  | some latest => do
-    let errs ← validateA store limit new
-    if errs ≠ [] then return errs
-    if immutablePhase latest.phase then
-      if old.ref ≠ new.ref then return [.immutRef]
-      match old.canary with
-      | none => return [.immutStyle]   -- `oldObj.Spec.Strategy.Canary == nil` guard
-      | some oc =>
-        let nc ← new.canary   -- PANIC if nil (unreachable: validateA passed)
-        if oc.trs ≠ nc.trs then return [.immutTR]
-        if old.anno.toLower ≠ new.anno.toLower then return [.immutStyle]
-        if oc.steps.length ≠ nc.steps.length then return [.immutSteps]
-        return []
-    else return []
+  | some latest =>
+    match validateA store limit new with
+    | none => none
+    | some errs =>
+      if errs ≠ [] then some errs
+      else if ¬ immutablePhase latest.phase then some []
+      else if old.ref ≠ new.ref then some [.immutRef]
+      else
+        match old.canary with
+        | none => some [.immutStyle]   -- `oldObj.Spec.Strategy.Canary == nil` guard
+        | some oc =>
+          match new.canary with
+          | none => none   -- PANIC newObj.Spec.Strategy.Canary.TrafficRoutings (unreachable: validateA passed)
+          | some nc =>
+            if oc.trs ≠ nc.trs then some [.immutTR]
+            else if lower old.anno ≠ lower new.anno then some [.immutStyle]
+            else if oc.steps.length ≠ nc.steps.length then some [.immutSteps]
+            else some []
 
 /-! ## Handle -/
 
